@@ -44,6 +44,7 @@ fixed("C01", "c6214be", "a table inside a list item or block quote was rendered 
 fixed("C01", "e6efcc2", "the separator line of a loose list inside a quote inside a list item (or footnote) was built with strip(): '- a / (blank) /   > - x /   > / (two spaces)> - y' came out with a bare '>' at column 0, which ends the outer item (also C02)", "block[loose-list-in-quote-in-item]/shape")
 fixed("C01", "dd9e149", "empty list items were dropped: '1. a / 2. / 3. b' -> '1. a / 3. b' (and renumbered on the next run, C02)", "block[empty-item]/shape:+/-item")
 fixed("C01", "8a49827", "render_table did not reset the skip-next-blank-line flag set by a heading: '# h' directly followed by a table lost the blank line after the table, and the next run read the following paragraph as a table row (C02)", "block[heading-then-table]/shape")
+fixed("C10", "b6eed66", "a heading is always followed by a blank line; directly inside an item of a tight list that made the list loose ('- ## a / - b' -> '- ## a / blank / - b': preserve did not keep the list as authored, tight did not tighten it) and, with a further block in the item, the next run separated the other items too (C02/C03 heading-then-block-in-tight-item)", "list[H|P]/list-spacing:preserve-as-authored")
 fixed("C06", "a81efe7", "no blank line before a closing tag after a list item that wraps or has a continuation line: the tag was read as part of the item on the next run (also C01/C02)", "tagblock[cont-before-close-*]/tagblock:blank-line-separated")
 fixed("C17", "fa95314", "directory traversal followed symlinks to files (targets outside the tree or inside excluded directories were listed); glob arguments skipped excluded directories and .flowmarkignore", "dir/unwanted[reached-via-file-link]")
 
@@ -113,12 +114,6 @@ for _p, _k in [("C01", "shape:same-kinds:text-or-attr"), ("C02", "idempotent:reb
                ("C10", "list-spacing:preserve-as-authored"), ("C10", "list-spacing:structure:loose"), ("C10", "list-spacing:structure:preserve"), ("C10", "list-spacing:structure:tight"),
                ("C10", "list-spacing:tight-only-single-block-lists")]:
     known(_p, f"footnote-first-line-list/{_k}", _FN)
-_HB = ("a heading is always followed by a blank line; directly inside an item of a tight list that holds a further block ('- ## a' / '  - b' / '- c') that blank line makes the list loose for the next "
-       "run, which then separates the items as well: '- ## a\\n\\n  - b\\n- c\\n' -> '- ## a\\n\\n  - b\\n\\n- c\\n'. A repair needs the renderer to know that a heading is a direct child of a "
-       "tight item and not its last block (Marko elements carry no parent link): not small.")
-for _p, _k in [("C02", "idempotent:blank-lines"), ("C03", "history:blank-lines")]:
-    known(_p, f"heading-then-block-in-tight-item/{_k}", _HB)
-
 # ---------------------------------------------------------------- known: sentence-initial-marker, escaped-numeral-after-soft-break, code-span-inner-space-runs
 _SM = ("semantic mode wraps every sentence separately, and markdown_escape_word is only applied to words that start a continuation line *within* a sentence: the first word of a sentence that "
        "starts a line of its own is not escaped, so 'aaa bbb ccc. # m n o' comes out as 'aaa bbb ccc.' / '# m n o' (a heading; likewise '-', '+', '1.' start a list). The 6-line repair (escape the "
@@ -133,7 +128,7 @@ known("C02", "escaped-numeral-after-soft-break/idempotent:escape",
 _CS = ("wrapping collapses every whitespace run to one space before atomic constructs are protected, so a code span padded with two or more spaces loses one level of padding per run: "
        "'`  a  `' -> '` a `' -> '`a`' (CommonMark strips one space on each side when parsing). Content of a code span changes (C01/C04) and two runs are needed (C02). Not repaired: the "
        "normalisation is shared by all wrap modes and the golden documents.")
-for _p, _k in [("C01", "shape:same-kinds:text-or-attr"), ("C02", "idempotent:content"), ("C03", "history:content"), ("C03", "relayout:content")]:
+for _p, _k in [("C01", "shape:same-kinds:text-or-attr"), ("C02", "idempotent:content"), ("C03", "history:content"), ("C03", "relayout:content"), ("C04", "verbatim:codespan")]:
     known(_p, f"code-span-inner-space-runs/{_k}", _CS)
 
 # ---------------------------------------------------------------- known: C06
